@@ -1,6 +1,7 @@
 import Driver.Util
 import Driver.C04
 import KavaVerif.Model.Cdp
+import KavaVerif.Model.CdpAuctions
 /-!
   C05 driver.
 
@@ -13,6 +14,20 @@ import KavaVerif.Model.Cdp
      `price` and ratio `L`, one `LiquidateCdps` pass (index scan + value-ratio re-check):   c cf debt dcf price L "=>" seized
   `c05.op` — same case lines as `c04.op` (see Driver/C04.lean); the model comparison is repeated and the
      C05 predicates are evaluated on the implementation's own pre/post observations.
+  `c05.lots` — one line per seized CDP (block liquidation and keeper liquidation): the collateral auctions x/auction
+     stored for it, read back from the auction store:
+       kind ty A pen reward deps debt "=>" lots
+     A / pen = auction size / liquidation penalty (mantissa) in force (x/params store); reward = collateral the keeper
+     received (bank balances; "-" for a block liquidation); deps = the CDP's deposit records BEFORE the operation
+     `acct:amt;…` (depositor-address order); debt = the debt coins the seizure moved cdp → liquidator (bank transfer
+     event; "-" = not observed); lots = `ret:lot:maxBid:correspondingDebt:weight:shape;…` in auction-id order
+     (ret = the single lot-return address, weight = its weight, shape = bit mask of structural defects: 1 not exactly
+     one return address / address unknown, 2 initiator is not the liquidator, 4 lot denom, 8 bid / max-bid denom or a
+     bid already present, 16 corresponding-debt denom).
+     Predicates `C05_seize_lots` on the observed auctions, then the model `seizeLots` is compared lot by lot.
+  `c05.lotsum` — one line per operation that started collateral auctions: what the bank moved into the auction
+     module (per collateral denom, and debt coins) against what the new auction records say:
+       kind collDeltas lotSums debtDelta collateralAuctionDebt debtAuctionDebt
 -/
 namespace Drv.C05
 open KV KV.Cdp Drv.C04
@@ -259,7 +274,130 @@ def handleOp : Handler
     | _, _, _, _, _ => badInput "parse"
   | _ => badInput "arity"
 
+/-! ### the auctions of a seizure -/
+
+/-- one stored collateral auction as the harness read it back -/
+structure OLot where
+  ret : Nat
+  lot : Int
+  maxBid : Int
+  debt : Int
+  weight : Int
+  shape : Int
+deriving Inhabited
+
+def parseOLot (s : String) : Option OLot :=
+  match s.splitOn ":" with
+  | [r, l, mb, d, w, sh] => do
+    let r ← nat? r
+    let l ← int? l
+    let mb ← int? mb
+    let d ← int? d
+    let w ← int? w
+    let sh ← int? sh
+    pure { ret := r, lot := l, maxBid := mb, debt := d, weight := w, shape := sh }
+  | _ => none
+
+def parseDep (s : String) : Option (Nat × Int) :=
+  match s.splitOn ":" with
+  | [a, v] => do
+    let a ← nat? a
+    let v ← int? v
+    pure (a, v)
+  | _ => none
+
+/-- maximal runs of consecutive lots with the same return address -/
+def runsOf : List OLot → List (List OLot)
+  | [] => []
+  | x :: rest =>
+    match runsOf rest with
+    | (y :: ys) :: more => if y.ret == x.ret then (x :: y :: ys) :: more else [x] :: (y :: ys) :: more
+    | other => [x] :: other
+
+def showLots (l : List Lot) : String :=
+  if l.isEmpty then "-" else ";".intercalate (l.map (fun x => s!"{x.ret}:{x.lot}:{x.maxBid}:{x.debt}"))
+
+def oLotSum (l : List OLot) : Int := sumI (l.map (fun (x : OLot) => x.lot))
+def oDebtSum (l : List OLot) : Int := sumI (l.map (fun (x : OLot) => x.debt))
+
+/-- the statements about one depositor's run of lots -/
+def runPreds (A rwd total dTot nDeps : Int) (r : List OLot) (dep : Nat × Int) : Option String :=
+  let c := oLotSum r
+  let D := oDebtSum r
+  if c != dep.2 && c != dep.2 - rwd then some s!"depositor-lots depositor={dep.1} lots={c} deposit={dep.2}" else
+  if r.dropLast.any (fun (x : OLot) => x.lot != A) then some "lot-size-only-the-last-lot-may-be-smaller" else
+  let whole : List Int := (r.filter (fun (x : OLot) => x.lot == A)).map (fun (x : OLot) => x.debt)
+  let hi := whole.foldl (fun (m x : Int) => if x > m then x else m) (whole.headD 0)
+  let lo := whole.foldl (fun (m x : Int) => if x < m then x else m) (whole.headD 0)
+  if hi - lo > 1 then some s!"debt-spread whole-lots-differ-by-{hi - lo}" else
+  if c ≤ 0 then none else
+  match r.find? (fun (x : OLot) => x.debt < D * x.lot / c || x.debt > D * x.lot / c + 1) with
+  | some x => some s!"debt-not-proportional lot={x.lot} debt={x.debt} deposit-debt={D} deposit={c}"
+  | none =>
+    if total ≤ 0 || dTot ≥ 100000000000000000 then none else
+    if absI (D * total - dTot * c) > (nDeps + 1) * total then
+      some s!"deposit-debt-share depositor={dep.1} share={D} debt={dTot} deposit={c} collateral={total}"
+    else none
+
+/-- the per-lot statements of `C05_seize_lots` / `C05_seize_lots_deposit` / `C05_seize_lots_shape` on the auctions
+    the implementation stored; `none` = all hold -/
+def lotPreds (A : Int) (pen : Dec) (reward : Option Int) (deps : List (Nat × Int)) (debt : Option Int)
+    (obs : List OLot) : Option String :=
+  let rwd : Int := reward.getD 0
+  let total : Int := sumI (deps.map (fun (d : Nat × Int) => d.2)) - rwd
+  let debtBad : Bool := match debt with
+    | some d => oDebtSum obs != d
+    | none => false
+  match obs.find? (fun (x : OLot) => x.shape != 0) with
+  | some x => some s!"lot-shape mask={x.shape} ret={x.ret} lot={x.lot}"
+  | none =>
+  if obs.any (fun (x : OLot) => x.weight != x.lot) then some "lot-return-weight-is-not-the-lot" else
+  if obs.any (fun (x : OLot) => x.lot ≤ 0 || x.lot > A) then some "lot-size-not-in-(0,auction-size]" else
+  if oLotSum obs != total then
+    some s!"sum-of-lots lots={oLotSum obs} collateral-minus-reward={total}" else
+  if debtBad then
+    some s!"sum-of-debts lots={oDebtSum obs} debt={debt.getD 0}" else
+  match obs.find? (fun (x : OLot) => x.maxBid != x.debt + penaltyOf x.debt pen) with
+  | some x => some s!"max-bid-not-debt-plus-penalty lot={x.lot} debt={x.debt} maxBid={x.maxBid} expected={x.debt + penaltyOf x.debt pen}"
+  | none =>
+  let runs := runsOf obs
+  if runs.map (fun (r : List OLot) => (r.headD default).ret) != deps.map (fun (d : Nat × Int) => d.1) then
+    some "lot-return-addresses-are-not-the-depositors-in-order" else
+  let nDeps : Int := deps.length
+  (runs.zip deps).findSome? (fun (p : List OLot × (Nat × Int)) => runPreds A rwd total (oDebtSum obs) nDeps p.1 p.2)
+
+def handleLots : Handler
+  | [kind, _ty, A, pen, reward, deps, debt, _, lots] =>
+    match int? A, int? pen, optInt? reward, (sec deps ";").mapM parseDep, optInt? debt, (sec lots ";").mapM parseOLot with
+    | some A, some pen, some reward, some deps, some debt, some obs =>
+      match lotPreds A ⟨pen⟩ reward deps debt obs with
+      | some tag => predfail "C05_seize_lots" s!"{kind} {tag}"
+      | none =>
+        let debtM := match debt with | some d => d | none => oDebtSum obs
+        let mdeps := depsAfterReward reward deps
+        match seizeLots A ⟨pen⟩ mdeps debtM with
+        | .ok l =>
+          let impl : List Lot := obs.map (fun x => { ret := x.ret, lot := x.lot, debt := x.debt, maxBid := x.maxBid })
+          if l == impl then "ok" else mismatch "lots" (showLots l) (showLots impl)
+        | .err => mismatch "lots" "err" "ok"
+        | .panic => mismatch "lots" "panic" "ok"
+    | _, _, _, _, _, _ => badInput "parse"
+  | _ => badInput "arity"
+
+def handleLotSum : Handler
+  | [kind, collDeltas, lotSums, debtDelta, collDebt, debtAucDebt] =>
+    match ints? collDeltas, ints? lotSums, int? debtDelta, int? collDebt, int? debtAucDebt with
+    | some cd, some ls, some dd, some cdebt, some adebt =>
+      if cd != ls then
+        predfail "C05_seize_lots" s!"{kind} collateral-in-auction-records-is-not-what-entered-the-auction-module records={showInts ls} bank={showInts cd}"
+      else if dd != cdebt + adebt then
+        predfail "C05_seize_lots" s!"{kind} debt-in-auction-records-is-not-what-entered-the-auction-module records={cdebt + adebt} bank={dd}"
+      else "ok"
+    | _, _, _, _, _ => badInput "parse"
+  | _ => badInput "arity"
+
 /-- handlers of property C05: (command name, handler) -/
 def handlers : List (String × Handler) :=
-  [("c05.ratio", handleRatio), ("c05.block", handleBlock), ("c05.op", handleOp)]
+  [("c05.ratio", handleRatio), ("c05.block", handleBlock), ("c05.op", handleOp),
+   ("c05.lots", handleLots), ("c05.lotsum", handleLotSum)]
 end Drv.C05
